@@ -296,6 +296,59 @@ def standard(prop, tier, seed, cases, classify, direct=None, known_match=None, e
     return chk.finish()
 
 
+def expansion_oracle(run, chk, select=lambda cs: True):
+    """Lang/BroadcastProofs.v, programs_unroll_to_their_expansion (which contains Lang/LoopProofs.v): for every program p with
+    `pexpand env0 p = Some (q, evs)` the model's unroll() emits exactly q.  coqc evaluates the judgement on the parsed program
+    of every selected case and compares q with the statements the IMPLEMENTATION emitted: inside the judgement they
+    must be equal."""
+    import os
+    import subprocess
+    import common
+    import langcorr
+    idx = [i for i, cs in enumerate(run.cases) if select(cs) and run.outcomes[i].get("prog_term") and not cs.get("ext") and not run.outcomes[i].get("qasm2")]
+    tally = {"inside-the-judgement-and-equal": 0, "outside-the-judgement": 0, "not-evaluated": 0}
+    d = common.run_dir()
+    shard, procs = 100, []
+    for k in range(0, len(idx), shard):
+        part = idx[k:k + shard]
+        f = os.path.join(d, "loops_%d.v" % (k // shard))
+        terms = []
+        for i in part:
+            o = run.outcomes[i]
+            outt = o.get("stmts_term") if o.get("unroll") == "ok" and o.get("stmts_term") else None
+            terms.append("(%s, %s)" % (o["prog_term"], "Some %s" % outt if outt else "None"))
+        with open(f, "w") as fh:
+            fh.write(langcorr.HEADER.replace("Unroll Corr", "Unroll FixProofs LoopProofs BroadcastProofs"))
+            fh.write("Definition code (c : list stmt * option (list stmt)) : nat :=\n"
+                     "  match pexpand env0 (fst c), snd c with\n"
+                     "  | None, _ => 0 | Some (q, _), Some out => if list_eqb stmt_eqb q out then 1 else 2 | Some _, None => 3 end.\n")
+            fh.write("Eval vm_compute in (map code\n [%s]).\n" % ";\n  ".join(terms))
+        procs.append((part, subprocess.Popen(["timeout", "600", "coqc", "-Q", common.COQ, "Verif", f], stdout=subprocess.PIPE, stderr=subprocess.PIPE, text=True)))
+    bad = 0
+    for part, p in procs:
+        so, se = p.communicate()
+        vals = re.findall(r"\b(\d+)\b", so.split("= [", 1)[-1].split("]")[0]) if p.returncode == 0 and "= [" in so else []
+        if len(vals) != len(part):
+            tally["not-evaluated"] += len(part)
+            continue
+        for i, v in zip(part, vals):
+            v = int(v)
+            if v == 0:
+                tally["outside-the-judgement"] += 1
+            elif v == 1:
+                tally["inside-the-judgement-and-equal"] += 1
+            elif bad < 3:
+                bad += 1
+                o = run.outcomes[i]
+                chk.violation("expansion_theorem_%d" % bad, {"kind": "program", "source": run.cases[i]["src"], "family": run.cases[i]["family"],
+                              "what": "the program is inside the judgement of theorem programs_unroll_to_their_expansion (loops replaced by their body at each value, "
+                                      "whole-register operations by one operation per bit, in order) but the implementation " + ("emits different statements" if v == 2 else "rejects it: %s" % o.get("unroll")),
+                              "implementation": {k2: o.get(k2) for k2 in ("validate", "unroll", "nq", "nc", "depth")}})
+    return tally
+
+
+
+
 def _outcome_hist(run):
     h = {}
     for o in run.outcomes:
